@@ -186,9 +186,13 @@ class StoreAdapter(Adapter):
                     anomalies.append("disk:log-content-wrong")
         finally:
             self.close_ro(ro)
+        self.extra_views(ctx, comp, nc, logs, anomalies)
         if anomalies:
             state["anomalies"] = sorted(set(anomalies))
         return state
+
+    def extra_views(self, ctx, comp, nc, logs, anomalies):
+        pass
 
     def finding_key(self, status, detail):
         act, args = detail["label"]
@@ -271,6 +275,34 @@ class DirAdapter(StoreAdapter):
 
     def arg_id(self, i, al):
         return f"{i}.{SUFFIX}" if al else i
+
+
+def _zip_view(self, ctx, comp, nc, logs, anomalies):
+    """The read-only zipped view of a directory store is another observation of the same dictionary:
+    zip the directory (as a user would to share it) and read it through ReadOnlyDataStoreZipped."""
+    import hashlib as _h
+
+    if int(_h.md5(skey([comp, nc]).encode()).hexdigest(), 16) % 4:
+        return  # every 4th state
+    from cogent3.app.data_store import ReadOnlyDataStoreZipped
+
+    base = ctx.dir / "zipped" / "store"
+    shutil.rmtree(ctx.dir / "zipped", ignore_errors=True)
+    (ctx.dir / "zipped").mkdir()
+    arc = shutil.make_archive(str(base), "zip", root_dir=str(ctx.dir), base_dir="store")
+    try:
+        z = ReadOnlyDataStoreZipped(arc, suffix=SUFFIX)
+        a2 = []
+        c2, n2, l2 = self.observe(z, a2, "zip")
+        if (c2, n2) != (comp, nc):
+            anomalies.append("zip-view-differs")
+        anomalies.extend(a for a in a2 if "md5" in a or "unknown" in a or "duplicate" in a)
+    except Exception as ex:
+        ctx.last_exc = repr(ex)
+        anomalies.append(f"zip-view-raised:{type(ex).__name__}")
+
+
+DirAdapter.extra_views = _zip_view
 
 
 class SqliteAdapter(StoreAdapter):
